@@ -1,5 +1,5 @@
 (* Proofs for Model/Gauge.v (C19). *)
-From Comdex Require Import Lib.Base Lib.DecArith Lib.DecFacts Lib.DecFacts3 Lib.F64 Model.Gauge.
+From Comdex Require Import Lib.Base Lib.DecArith Lib.DecFacts Lib.DecFacts2 Lib.DecFacts3 Lib.F64 Model.Gauge.
 From Coq Require Import ZifyBool.
 
 (* ---------------- split ---------------- *)
@@ -59,41 +59,75 @@ Lemma split_zero_epochs total : 0 <= total -> split total 0 = Panic.
 Proof. intros. unfold split. destruct (Z.ltb_spec total 0); [lia|]. reflexivity. Qed.
 
 (* ---------------- sends ---------------- *)
-Lemma do_sends_spec rewards : forall bal, Forall (fun r => 0 <= r) rewards -> 0 <= bal ->
+Definition nonneg_pays (l : pays) : Prop := Forall (fun p => 0 <= snd p) l.
+
+Lemma do_sends_spec rewards : forall bal, nonneg_pays rewards ->
   let '(b, ps) := do_sends bal rewards in
-  b = bal - zsum ps /\ 0 <= b /\ 0 <= zsum ps <= zsum rewards /\ length ps = length rewards /\
-  Forall (fun p => 0 <= p) ps.
+  b = bal - pay_total ps /\ 0 <= pay_total ps <= pay_total rewards /\ (0 <= bal -> 0 <= b).
 Proof.
-  induction rewards as [|r rest IH]; intros bal Hr Hb; cbn [do_sends].
-  - cbn. repeat split; try lia. constructor.
-  - inversion Hr as [|? ? Hr0 Hr']; subst. destruct (Z.leb_spec r bal).
-    + specialize (IH (bal - r) Hr' ltac:(lia)). destruct (do_sends (bal - r) rest) as [b ps].
-      destruct IH as (A & B & C & D & E). cbn [zsum length]. repeat split; try lia. constructor; assumption.
-    + specialize (IH bal Hr' Hb). destruct (do_sends bal rest) as [b ps].
-      destruct IH as (A & B & C & D & E). cbn [zsum length]. repeat split; try lia. constructor; [lia|assumption].
+  unfold pay_total. induction rewards as [|[a r] rest IH]; intros bal Hr; cbn [do_sends].
+  - cbn. lia.
+  - inversion Hr as [|? ? Hr0 Hr']; subst. cbn [snd] in Hr0. destruct (Z.leb_spec r bal).
+    + specialize (IH (bal - r) Hr'). destruct (do_sends (bal - r) rest) as [b ps].
+      destruct IH as (A & B & C). cbn [map snd zsum]. lia.
+    + specialize (IH bal Hr'). destruct (do_sends bal rest) as [b ps].
+      destruct IH as (A & B & C). cbn [map snd zsum]. lia.
 Qed.
 
-Lemma existsb_neg_false l : existsb (fun r => r <? 0) l = false -> Forall (fun r => 0 <= r) l.
+Lemma existsb_neg_false (l : pays) : existsb (fun r => snd r <? 0) l = false -> nonneg_pays l.
 Proof.
   induction l as [|x l IH]; cbn [existsb]; intros H; constructor.
-  - destruct (Z.ltb_spec x 0); [discriminate|lia].
-  - apply IH. destruct (x <? 0); [discriminate|exact H].
+  - destruct (Z.ltb_spec (snd x) 0); [discriminate|lia].
+  - apply IH. destruct (snd x <? 0); [discriminate|exact H].
+Qed.
+
+Lemma nonneg_pays_total l : nonneg_pays l -> 0 <= pay_total l.
+Proof. unfold pay_total. induction 1; cbn [map zsum]; lia. Qed.
+
+(* BeginRewardDistributions: what is booked is what was calculated (whatever the balance), it fits
+   in the coins to distribute, and the receivers get at most that *)
+Lemma distribute_spec calc coins bal tot bal' paid :
+  distribute calc coins bal = Ok (Some (tot, bal', paid)) ->
+  (exists rewards, calc coins = Ok rewards /\ nonneg_pays rewards /\ tot = pay_total rewards) /\
+  0 <= pay_total paid <= tot /\ tot <= coins /\ bal' = bal - pay_total paid /\ (0 <= bal -> 0 <= bal').
+Proof.
+  unfold distribute. destruct (calc coins) as [rewards| |] eqn:Ec; try discriminate.
+  destruct (existsb (fun r => snd r <? 0) rewards) eqn:Ex; [discriminate|]. apply existsb_neg_false in Ex.
+  destruct (Z.ltb_spec coins (pay_total rewards)); [discriminate|].
+  pose proof (do_sends_spec rewards bal Ex) as S. destruct (do_sends bal rewards) as [b ps].
+  intros E. injection E as <- <- <-. destruct S as (S1 & S2 & S3).
+  split; [exists rewards; auto|]. repeat split; try lia.
+Qed.
+
+Lemma distribute_bal_indep calc coins b1 b2 :
+  match distribute calc coins b1, distribute calc coins b2 with
+  | Ok (Some (t1, _, _)), Ok (Some (t2, _, _)) => t1 = t2
+  | Ok None, Ok None => True
+  | Err _, Err _ => True
+  | Panic, Panic => True
+  | _, _ => False
+  end.
+Proof.
+  unfold distribute. destruct (calc coins) as [rewards| |]; auto.
+  destruct (existsb _ rewards); auto. destruct (coins <? pay_total rewards); auto.
+  destruct (do_sends b1 rewards), (do_sends b2 rewards). reflexivity.
 Qed.
 
 (* ---------------- one trigger ---------------- *)
-(* what a trigger can do to a gauge: nothing, deactivate, or pay one epoch *)
-Lemma trigger_spec now calc bal g g' bal' paid : 0 <= bal ->
+(* what a trigger can do to a (non-swap-fee) gauge: nothing, deactivate, or pay one epoch *)
+Lemma trigger_spec now calc bal g g' bal' paid :
   trigger now calc bal g = Ok (g', bal', paid) ->
   g_deposit g' = g_deposit g /\ g_total g' = g_total g /\ g_start g' = g_start g /\
+  g_dur g' = g_dur g /\ g_swap g' = g_swap g /\ g_denom g' = g_denom g /\
   let d := g_distributed g' - g_distributed g in
-  0 <= zsum paid <= d /\ bal' = bal - zsum paid /\ 0 <= bal' /\
+  0 <= pay_total paid <= d /\ bal' = bal - pay_total paid /\ (0 <= bal -> 0 <= bal') /\
   ((g_triggered g' = g_triggered g /\ d = 0 /\ paid = []) \/
    (g_triggered g' = g_triggered g + 1 /\ d <= epoch_allocation g /\
     epoch_allocation g <= g_deposit g - g_distributed g /\ g_active g' = g_active g /\
-    g_triggered g <> g_total g)).
+    g_triggered g <> g_total g /\ g_active g = true /\ g_start g <= now)).
 Proof.
-  intros Hb. unfold trigger.
-  destruct ((now <? g_start g) || negb (g_active g)).
+  unfold trigger.
+  destruct ((now <? g_start g) || negb (g_active g)) eqn:Eg.
   { intros E. injection E as <- <- <-. cbn. repeat split; try lia. left. repeat split; lia. }
   destruct (Z.eqb_spec (g_triggered g) (g_total g)).
   { intros E. injection E as <- <- <-. cbn. repeat split; try lia. left. repeat split; lia. }
@@ -105,80 +139,553 @@ Proof.
   destruct (nth_z sp (Z.to_nat (g_triggered g))) as [amount|]; [|discriminate].
   destruct (Z.ltb_spec (g_deposit g - g_distributed g) amount).
   { intros E. injection E as <- <- <-. cbn. repeat split; try lia. left. repeat split; lia. }
-  destruct calc as [rewards| |]; try discriminate.
+  destruct (distribute calc amount bal) as [[[[tot b1] ps]|]| |] eqn:Ed; try discriminate.
   2:{ intros E. injection E as <- <- <-. cbn. repeat split; try lia. left. repeat split; lia. }
-  destruct (existsb (fun r => r <? 0) rewards) eqn:Ex; [discriminate|].
-  apply existsb_neg_false in Ex.
-  destruct (Z.ltb_spec amount (zsum rewards)).
-  { intros E. injection E as <- <- <-. cbn. repeat split; try lia. left. repeat split; lia. }
-  pose proof (do_sends_spec rewards bal Ex Hb) as S. destruct (do_sends bal rewards) as [b ps].
-  destruct S as (S1 & S2 & S3 & S4 & S5).
-  intros E. injection E as <- <- <-. cbn. repeat split; try lia; try (right; repeat split; lia).
+  apply distribute_spec in Ed. destruct Ed as (_ & D1 & D2 & D3 & D4).
+  intros E. injection E as <- <- <-. cbn.
+  apply orb_false_iff in Eg. destruct Eg as [Eg1 Eg2]. apply negb_false_iff in Eg2. apply Z.ltb_ge in Eg1.
+  repeat split; try lia; try assumption; try (right; repeat split; try lia; assumption).
+Qed.
+
+(* the swap-fee branch: the allocation of the epoch is the deposit the gauge holds *)
+Lemma trigger_swap_spec calc recv bal g g' bal' paid :
+  trigger_swap calc recv bal g = Ok (g', bal', paid) ->
+  (g' = g /\ bal' = bal - pay_total paid /\ 0 <= pay_total paid <= Z.max 0 (g_deposit g) /\ (0 <= bal -> 0 <= bal') /\
+   (pay_total paid = 0 \/ kf_C19_2 calc recv g = true \/ g_swap g = false)) \/
+  (exists tot r, recv = Ok r /\ g' = g_swap_paid g tot r /\ 0 <= pay_total paid <= tot /\ tot <= Z.max 0 (g_deposit g) /\
+                 (tot = 0 \/ 0 < g_deposit g) /\ bal' = bal - pay_total paid + r /\ (0 <= bal -> 0 <= bal' - r)).
+Proof.
+  unfold trigger_swap.
+  destruct (Z.ltb_spec 0 (g_deposit g)) as [Hd|Hd].
+  - destruct (distribute calc (g_deposit g) bal) as [[[[tot b1] ps]|]| |] eqn:Ed; try discriminate.
+    2:{ intros E. injection E as <- <- <-. left. cbn. repeat split; try lia. }
+    pose proof (distribute_bal_indep calc (g_deposit g) bal (g_deposit g)) as Hi. rewrite Ed in Hi.
+    apply distribute_spec in Ed. destruct Ed as (_ & D1 & D2 & D3 & D4).
+    destruct recv as [r| |] eqn:Er; try discriminate.
+    + intros E. injection E as <- <- <-. right. exists tot, r. repeat split; try lia.
+    + intros E. injection E as <- <- <-. left. repeat split; try lia.
+      destruct (Z.eq_dec (pay_total ps) 0) as [|Hp]; [left; assumption|]. right.
+      destruct (g_swap g) eqn:Es; [left|right; reflexivity].
+      unfold kf_C19_2. rewrite Es. destruct (Z.ltb_spec 0 (g_deposit g)); [|lia]. cbn [andb is_ok negb].
+      destruct (distribute calc (g_deposit g) (g_deposit g)) as [[[[t2 b2] p2]|]| |]; try contradiction.
+      subst t2. apply Z.ltb_lt. lia.
+  - destruct recv as [r| |]; try discriminate.
+    + intros E. injection E as <- <- <-. right. exists 0, r. cbn. repeat split; try lia.
+    + intros E. injection E as <- <- <-. left. cbn. repeat split; try lia.
+Qed.
+
+(* ---------------- invariants ---------------- *)
+Definition GInv (g : gauge) : Prop :=
+  if g_swap g then 0 <= g_deposit g else 0 <= g_distributed g <= g_deposit g.
+Definition XInv (x : ext) : Prop := 0 <= x_avail x.
+Definition BInv (b : bank) : Prop := forall d, 0 <= b d.
+
+Lemma g_rem_nonneg g : GInv g -> 0 <= g_rem g.
+Proof. unfold GInv, g_rem. destruct (g_swap g); lia. Qed.
+
+Lemma kf2_regular calc recv g : g_swap g = false -> kf_C19_2 calc recv g = false.
+Proof. intros H. unfold kf_C19_2. rewrite H. reflexivity. Qed.
+
+(* one gauge, one epoch: the remainder falls by at least what leaves the custody account *)
+Lemma trigger_any_step now calc recv bal g g' bal' paid :
+  trigger_any now calc recv bal g = Ok (g', bal', paid) -> GInv g -> 0 <= bal -> recv_wf recv = true ->
+  kf_C19_2 calc recv g = false ->
+  GInv g' /\ 0 <= bal' /\ g_rem g' - g_rem g <= bal' - bal /\ g_denom g' = g_denom g /\ g_dur g' = g_dur g.
+Proof.
+  unfold trigger_any, GInv, g_rem. intros E HG Hb Hw Hk. destruct (g_swap g) eqn:Es.
+  - apply trigger_swap_spec in E. destruct E as [(-> & B & C & B' & D)|(tot & r & -> & -> & C & D & F & G & G')].
+    + rewrite Es. destruct D as [D|[D|D]]; [|congruence|congruence]. repeat split; lia.
+    + cbn [recv_wf] in Hw. apply Z.leb_le in Hw. cbn [g_swap_paid g_swap g_deposit g_distributed g_denom g_dur]. rewrite Es.
+      repeat split; lia.
+  - apply trigger_spec in E. destruct E as (D1 & D2 & D3 & D4 & D5 & D6 & D7). cbv zeta in D7.
+    destruct D7 as (P1 & P2 & P3 & P4). rewrite D5, Es.
+    destruct P4 as [(A & B & C)|(A & B & C & D & F)]; repeat split; try lia; auto.
+Qed.
+
+(* without any hypothesis on classes: a non-swap-fee gauge never books more than its deposit *)
+Definition GInvR (g : gauge) : Prop := g_swap g = false -> 0 <= g_distributed g <= g_deposit g.
+Lemma trigger_any_ginvr now calc recv bal g g' bal' paid :
+  trigger_any now calc recv bal g = Ok (g', bal', paid) -> GInvR g -> GInvR g' /\ g_swap g' = g_swap g.
+Proof.
+  unfold trigger_any, GInvR. intros E HG. destruct (g_swap g) eqn:Es.
+  - apply trigger_swap_spec in E. destruct E as [(-> & _)|(tot & r & _ & -> & _)].
+    + rewrite Es. split; [discriminate|reflexivity].
+    + cbn [g_swap_paid g_swap]. rewrite Es. split; [discriminate|reflexivity].
+  - apply trigger_spec in E. destruct E as (D1 & D2 & D3 & D4 & D5 & D6 & D7). cbv zeta in D7.
+    destruct D7 as (P1 & P2 & P3 & P4). rewrite D5, Es. split; [|reflexivity]. intros _. specialize (HG eq_refl).
+    destruct P4 as [(A & B & C)|(A & B & C & D & F)]; lia.
+Qed.
+
+Lemma owed_g_cons d g gs : owed_g d (g :: gs) = (if g_denom g =? d then g_rem g else 0) + owed_g d gs.
+Proof. reflexivity. Qed.
+Lemma owed_x_cons d x xs : owed_x d (x :: xs) = (if x_denom x =? d then x_avail x else 0) + owed_x d xs.
+Proof. reflexivity. Qed.
+Lemma owed_g_app d a b : owed_g d (a ++ b) = owed_g d a + owed_g d b.
+Proof. unfold owed_g. rewrite map_app. induction (map _ a) as [|x l IH]; cbn [app zsum]; lia. Qed.
+Lemma owed_x_app d a b : owed_x d (a ++ b) = owed_x d a + owed_x d b.
+Proof. unfold owed_x. rewrite map_app. induction (map _ a) as [|x l IH]; cbn [app zsum]; lia. Qed.
+
+Lemma recv_wf_hd rv : forallb recv_wf rv = true -> recv_wf (hd_recv rv) = true /\ forallb recv_wf (tl rv) = true.
+Proof. destruct rv as [|r rv]; cbn; [auto|]. intros H. apply andb_true_iff in H. exact H. Qed.
+
+Lemma bset_same b d v : bset b d v d = v.
+Proof. unfold bset. rewrite Z.eqb_refl. reflexivity. Qed.
+Lemma bset_other b d v x : x <> d -> bset b d v x = b x.
+Proof. unfold bset. intros H. destruct (Z.eqb_spec x d); [contradiction|reflexivity]. Qed.
+Lemma BInv_bset b d v : BInv b -> 0 <= v -> BInv (bset b d v).
+Proof. unfold BInv, bset. intros H Hv x. destruct (x =? d); auto. Qed.
+
+(* InitateGaugesForDuration *)
+Lemma run_gauges_inv now dur : forall gs fe rv b gs' b' ps,
+  run_gauges now dur gs fe rv b = Ok (gs', b', ps) ->
+  Forall GInv gs -> BInv b -> forallb recv_wf rv = true -> kf2_pass dur gs fe rv = false ->
+  Forall GInv gs' /\ BInv b' /\ (forall d, owed_g d gs' - owed_g d gs <= b' d - b d).
+Proof.
+  induction gs as [|g rest IH]; intros fe rv b gs' b' ps E HG HB Hw Hk; cbn [run_gauges] in E.
+  - injection E as <- <- <-. repeat split; [constructor|assumption|intros; lia].
+  - inversion HG as [|? ? Hg Hrest]; subst. cbn [kf2_pass] in Hk. apply orb_false_iff in Hk. destruct Hk as [Hk1 Hk2].
+    apply recv_wf_hd in Hw. destruct Hw as [Hw1 Hw2].
+    destruct (Z.eqb_spec (g_dur g) dur) as [Hd|Hd].
+    + cbn [andb] in Hk1.
+      destruct (trigger_any now (farm_calc (hd_farm fe)) (hd_recv rv) (b (g_denom g)) g) as [[[g1 bal1] paid]| |] eqn:Et; try discriminate.
+      destruct (run_gauges now dur rest (tl fe) (tl rv) (bset b (g_denom g) bal1)) as [[[gs1 b1] ps1]| |] eqn:Er; try discriminate.
+      injection E as <- <- <-.
+      pose proof (trigger_any_step _ _ _ _ _ _ _ _ Et Hg (HB _) Hw1 Hk1) as (T1 & T2 & T3 & T4 & T5).
+      specialize (IH _ _ _ _ _ _ Er Hrest (BInv_bset _ _ _ HB T2) Hw2 Hk2). destruct IH as (I1 & I2 & I3).
+      split; [constructor; assumption|]. split; [assumption|]. intros d. rewrite !owed_g_cons, T4. specialize (I3 d).
+      destruct (Z.eqb_spec (g_denom g) d) as [He|Hne].
+      * subst d. rewrite bset_same in I3. lia.
+      * rewrite bset_other in I3 by congruence. lia.
+    + destruct (run_gauges now dur rest (tl fe) (tl rv) b) as [[[gs1 b1] ps1]| |] eqn:Er; try discriminate.
+      injection E as <- <- <-. specialize (IH _ _ _ _ _ _ Er Hrest HB Hw2 Hk2). destruct IH as (I1 & I2 & I3).
+      split; [constructor; assumption|]. split; [assumption|]. intros d. rewrite !owed_g_cons. specialize (I3 d). lia.
+Qed.
+
+Lemma run_gauges_ginvr now dur : forall gs fe rv b gs' b' ps,
+  run_gauges now dur gs fe rv b = Ok (gs', b', ps) -> Forall GInvR gs -> Forall GInvR gs'.
+Proof.
+  induction gs as [|g rest IH]; intros fe rv b gs' b' ps E HG; cbn [run_gauges] in E.
+  - injection E as <- <- <-. constructor.
+  - inversion HG as [|? ? Hg Hrest]; subst. destruct (g_dur g =? dur).
+    + destruct (trigger_any _ _ _ _ g) as [[[g1 bal1] paid]| |] eqn:Et; try discriminate.
+      destruct (run_gauges now dur rest _ _ _) as [[[gs1 b1] ps1]| |] eqn:Er; try discriminate.
+      injection E as <- <- <-. constructor; [|eapply IH; eassumption].
+      exact (proj1 (trigger_any_ginvr _ _ _ _ _ _ _ _ Et Hg)).
+    + destruct (run_gauges now dur rest _ _ _) as [[[gs1 b1] ps1]| |] eqn:Er; try discriminate.
+      injection E as <- <- <-. constructor; [assumption|eapply IH; eassumption].
+Qed.
+
+(* TriggerAndUpdateEpochInfos *)
+Lemma run_epochs_inv now : forall es gs fe rv b es' gs' b' ps,
+  run_epochs now es gs fe rv b = Ok (es', gs', b', ps) ->
+  Forall GInv gs -> BInv b -> forallb recv_wf rv = true -> kf2_epochs now es gs fe rv b = false ->
+  Forall GInv gs' /\ BInv b' /\ (forall d, owed_g d gs' - owed_g d gs <= b' d - b d).
+Proof.
+  induction es as [|e rest IH]; intros gs fe rv b es' gs' b' ps E HG HB Hw Hk; cbn [run_epochs] in E.
+  - injection E as <- <- <- <-. repeat split; [assumption|assumption|intros; lia].
+  - cbn [kf2_epochs] in Hk. destruct (epoch_tick now e) as [e1 r]. cbn [snd] in Hk.
+    destruct r.
+    1,2,4: (destruct (run_epochs now rest gs fe rv b) as [[[[es1 gs2] b2] ps2]| |] eqn:Er; try discriminate;
+            injection E as <- <- <- <-; exact (IH _ _ _ _ _ _ _ _ Er HG HB Hw Hk)).
+    apply orb_false_iff in Hk. destruct Hk as [Hk1 Hk2].
+    destruct (run_gauges now (e_dur e) gs fe rv b) as [[[gs1 b1] ps1]| |] eqn:Eg; try discriminate.
+    destruct (run_epochs now rest gs1 fe rv b1) as [[[[es1 gs2] b2] ps2]| |] eqn:Er; try discriminate.
+    injection E as <- <- <- <-.
+    pose proof (run_gauges_inv _ _ _ _ _ _ _ _ _ Eg HG HB Hw Hk1) as (G1 & G2 & G3).
+    pose proof (IH _ _ _ _ _ _ _ _ Er G1 G2 Hw Hk2) as (I1 & I2 & I3).
+    split; [assumption|]. split; [assumption|]. intros d. specialize (G3 d). specialize (I3 d). lia.
+Qed.
+
+Lemma run_epochs_ginvr now : forall es gs fe rv b es' gs' b' ps,
+  run_epochs now es gs fe rv b = Ok (es', gs', b', ps) -> Forall GInvR gs -> Forall GInvR gs'.
+Proof.
+  induction es as [|e rest IH]; intros gs fe rv b es' gs' b' ps E HG; cbn [run_epochs] in E.
+  - injection E as <- <- <- <-. assumption.
+  - destruct (epoch_tick now e) as [e1 r]. destruct r.
+    1,2,4: (destruct (run_epochs now rest gs fe rv b) as [[[[es1 gs2] b2] ps2]| |] eqn:Er; try discriminate;
+            injection E as <- <- <- <-; exact (IH _ _ _ _ _ _ _ _ Er HG)).
+    destruct (run_gauges now (e_dur e) gs fe rv b) as [[[gs1 b1] ps1]| |] eqn:Eg; try discriminate.
+    destruct (run_epochs now rest gs1 fe rv b1) as [[[[es1 gs2] b2] ps2]| |] eqn:Er; try discriminate.
+    injection E as <- <- <- <-. eapply IH; [eassumption|]. eapply run_gauges_ginvr; eassumption.
+Qed.
+
+(* ---------------- external programs ---------------- *)
+Lemma ext_loop_spec x now total : forall pop bal tracker b t ps,
+  ext_loop x now total pop bal tracker = Ok (b, t, ps) ->
+  b = bal - pay_total ps /\ 0 <= pay_total ps <= t - tracker /\ (0 <= bal -> 0 <= b).
+Proof.
+  unfold pay_total. induction pop as [|[[a net] created] rest IH]; intros bal tracker b t ps E; cbn [ext_loop] in E.
+  - injection E as <- <- <-. cbn. lia.
+  - destruct (negb (x_count x =? x_days x - 1) && (now - created <? x_minlock x)); [exact (IH _ _ _ _ _ E)|].
+    destruct (ext_final _ _ _ _ _) as [f| |]; try discriminate.
+    destruct (Z.ltb_spec 0 f); [|exact (IH _ _ _ _ _ E)].
+    destruct (Z.leb_spec f bal).
+    + destruct (ext_loop x now total rest (bal - f) (tracker + f)) as [[[b1 t1] ps1]| |] eqn:Er; try discriminate.
+      injection E as <- <- <-. apply IH in Er. cbn [map snd zsum]. lia.
+    + destruct (ext_loop x now total rest bal (tracker + f)) as [[[b1 t1] ps1]| |] eqn:Er; try discriminate.
+      injection E as <- <- <-. apply IH in Er. cbn [map snd zsum]. lia.
+Qed.
+
+(* what is booked does not depend on the custody balance *)
+Lemma ext_loop_indep x now total : forall pop b1 b2 tr,
+  match ext_loop x now total pop b1 tr, ext_loop x now total pop b2 tr with
+  | Ok (_, t1, _), Ok (_, t2, _) => t1 = t2
+  | Err _, Err _ => True
+  | Panic, Panic => True
+  | _, _ => False
+  end.
+Proof.
+  induction pop as [|[[a net] created] rest IH]; intros b1 b2 tr; cbn [ext_loop]; [reflexivity|].
+  destruct (negb (x_count x =? x_days x - 1) && (now - created <? x_minlock x)); [apply IH|].
+  destruct (ext_final _ _ _ _ _) as [f| |]; auto.
+  destruct (0 <? f); [|apply IH].
+  set (p1 := if f <=? b1 then (b1 - f, f) else (b1, 0)). set (p2 := if f <=? b2 then (b2 - f, f) else (b2, 0)).
+  destruct p1 as [c1 g1], p2 as [c2 g2]. specialize (IH c1 c2 (tr + f)).
+  destruct (ext_loop x now total rest c1 (tr + f)) as [[[? ?] ?]| |], (ext_loop x now total rest c2 (tr + f)) as [[[? ?] ?]| |]; auto.
+Qed.
+
+Lemma ext_tick_step now e bal x x' bal' paid :
+  ext_tick now e bal x = Ok (x', bal', paid) -> XInv x -> 0 <= bal -> kf_C19_3 now e x = false ->
+  XInv x' /\ 0 <= bal' /\ x_avail x' - x_avail x <= bal' - bal /\ x_denom x' = x_denom x /\ x_kind x' = x_kind x.
+Proof.
+  unfold XInv, kf_C19_3, ext_tick. intros E HX Hb Hk.
+  destruct (negb (x_active x)). { injection E as <- <- <-. repeat split; lia. }
+  destruct (negb (x_next x <? now)). { injection E as <- <- <-. repeat split; lia. }
+  destruct (x_count x <? x_days x).
+  2:{ injection E as <- <- <-. cbn. repeat split; lia. }
+  pose proof (ext_loop_indep x now (xe_total e) (xe_pop e) bal 0 0) as Hi.
+  destruct (ext_loop x now (xe_total e) (xe_pop e) bal 0) as [[[b1 t1] ps1]| |] eqn:El; try discriminate.
+  injection E as <- <- <-. apply ext_loop_spec in El. cbn [x_avail x_denom x_kind].
+  destruct (ext_loop x now (xe_total e) (xe_pop e) 0 0) as [[[b2 t2] ps2]| |]; try contradiction.
+  subst t2. cbn [x_avail] in Hk. apply Z.ltb_ge in Hk. repeat split; lia.
+Qed.
+
+Lemma run_exts_inv kind now : forall xs xe b xs' b' ps,
+  run_exts kind now xs xe b = Ok (xs', b', ps) ->
+  Forall XInv xs -> BInv b -> kf3_pass kind now xs xe = false ->
+  Forall XInv xs' /\ BInv b' /\ (forall d, owed_x d xs' - owed_x d xs <= b' d - b d).
+Proof.
+  induction xs as [|x rest IH]; intros xe b xs' b' ps E HX HB Hk; cbn [run_exts] in E.
+  - injection E as <- <- <-. repeat split; [constructor|assumption|intros; lia].
+  - inversion HX as [|? ? Hx Hrest]; subst. cbn [kf3_pass] in Hk. apply orb_false_iff in Hk. destruct Hk as [Hk1 Hk2].
+    destruct (Z.eqb_spec (x_kind x) kind) as [Hd|Hd].
+    + cbn [andb] in Hk1.
+      destruct (ext_tick now (hd_xenv xe) (b (x_denom x)) x) as [[[x1 bal1] paid]| |] eqn:Et; try discriminate.
+      destruct (run_exts kind now rest (tl xe) (bset b (x_denom x) bal1)) as [[[xs1 b1] ps1]| |] eqn:Er; try discriminate.
+      injection E as <- <- <-.
+      pose proof (ext_tick_step _ _ _ _ _ _ _ Et Hx (HB _) Hk1) as (T1 & T2 & T3 & T4 & T5).
+      specialize (IH _ _ _ _ _ Er Hrest (BInv_bset _ _ _ HB T2) Hk2). destruct IH as (I1 & I2 & I3).
+      split; [constructor; assumption|]. split; [assumption|]. intros d. rewrite !owed_x_cons, T4. specialize (I3 d).
+      destruct (Z.eqb_spec (x_denom x) d) as [He|Hne].
+      * subst d. rewrite bset_same in I3. lia.
+      * rewrite bset_other in I3 by congruence. lia.
+    + destruct (run_exts kind now rest (tl xe) b) as [[[xs1 b1] ps1]| |] eqn:Er; try discriminate.
+      injection E as <- <- <-. specialize (IH _ _ _ _ _ Er Hrest HB Hk2). destruct IH as (I1 & I2 & I3).
+      split; [constructor; assumption|]. split; [assumption|]. intros d. rewrite !owed_x_cons. specialize (I3 d). lia.
+Qed.
+
+(* ---------------- lend programs ---------------- *)
+Lemma lend_loop_spec apr : forall arr bal tr,
+  let '(b, t, ps) := lend_loop apr arr bal tr in
+  b = bal - pay_total ps /\ 0 <= pay_total ps <= t - tr /\ (0 <= bal -> 0 <= b).
+Proof.
+  unfold pay_total. induction arr as [|[a amt] rest IH]; intros bal tr; cbn [lend_loop].
+  - cbn. lia.
+  - destruct (Z.ltb_spec 0 (dtrunc_int (dmul amt apr))); [|apply IH].
+    set (f := dtrunc_int (dmul amt apr)) in *.
+    destruct (Z.leb_spec f bal).
+    + specialize (IH (bal - f) (tr + f)). destruct (lend_loop apr rest (bal - f) (tr + f)) as [[b1 t1] ps1].
+      cbn [map snd zsum]. lia.
+    + specialize (IH bal (tr + f)). destruct (lend_loop apr rest bal (tr + f)) as [[b1 t1] ps1].
+      cbn [map snd zsum]. lia.
+Qed.
+
+Lemma lend_loop_indep apr : forall arr b1 b2 tr,
+  snd (fst (lend_loop apr arr b1 tr)) = snd (fst (lend_loop apr arr b2 tr)).
+Proof.
+  induction arr as [|[a amt] rest IH]; intros b1 b2 tr; cbn [lend_loop]; [reflexivity|].
+  destruct (0 <? dtrunc_int (dmul amt apr)); [|apply IH].
+  set (f := dtrunc_int (dmul amt apr)).
+  set (p1 := if f <=? b1 then (b1 - f, f) else (b1, 0)). set (p2 := if f <=? b2 then (b2 - f, f) else (b2, 0)).
+  destruct p1 as [c1 g1], p2 as [c2 g2]. specialize (IH c1 c2 (tr + f)).
+  destruct (lend_loop apr rest c1 (tr + f)) as [[? ?] ?], (lend_loop apr rest c2 (tr + f)) as [[? ?] ?]. exact IH.
+Qed.
+
+(* everything but the balance and the receipts is independent of the custody balance *)
+Lemma lend_tick_indep now e arr tot b1 b2 x :
+  match lend_tick now e arr tot b1 x, lend_tick now e arr tot b2 x with
+  | Ok (Some (x1, _, _, a1, t1)), Ok (Some (x2, _, _, a2, t2)) => x1 = x2 /\ a1 = a2 /\ t1 = t2
+  | Ok None, Ok None => True
+  | Err _, Err _ => True
+  | Panic, Panic => True
+  | _, _ => False
+  end.
+Proof.
+  unfold lend_tick. destruct (negb (x_active x)); [auto|]. destruct (negb (x_next x <? now)); [auto|].
+  destruct (x_count x <? x_days x); [|auto]. destruct (negb (le_ok e)); [auto|].
+  destruct (le_price e) as [[twa decimals]|]; [|auto]. destruct (decimals =? 0); [auto|].
+  destruct (_ <=? 0); [auto|].
+  match goal with |- context [lend_loop ?apr ?arr b1 0] => pose proof (lend_loop_indep apr arr b1 b2 0) as Hi;
+    destruct (lend_loop apr arr b1 0) as [[c1 t1] p1], (lend_loop apr arr b2 0) as [[c2 t2] p2] end.
+  cbn [fst snd] in Hi. subst t2. auto.
+Qed.
+
+Lemma lend_tick_step now e arr tot bal x x' bal' paid arr' tot' :
+  lend_tick now e arr tot bal x = Ok (Some (x', bal', paid, arr', tot')) -> XInv x -> 0 <= bal ->
+  kf_C19_4 now e arr tot x = false ->
+  XInv x' /\ 0 <= bal' /\ x_avail x' - x_avail x <= bal' - bal /\ x_denom x' = x_denom x.
+Proof.
+  unfold XInv, kf_C19_4. intros E HX Hb Hk.
+  pose proof (lend_tick_indep now e arr tot bal 0 x) as Hi. rewrite E in Hi.
+  destruct (lend_tick now e arr tot 0 x) as [[[[[[x2 ?] ?] a2] t2]|]| |]; try contradiction.
+  destruct Hi as (<- & _ & _). apply Z.ltb_ge in Hk. split; [assumption|].
+  revert E. unfold lend_tick.
+  destruct (negb (x_active x)). { intros E; injection E as <- <- <- <- <-. repeat split; lia. }
+  destruct (negb (x_next x <? now)). { intros E; injection E as <- <- <- <- <-. repeat split; lia. }
+  destruct (x_count x <? x_days x).
+  2:{ intros E; injection E as <- <- <- <- <-. cbn. repeat split; lia. }
+  destruct (negb (le_ok e)); [discriminate|].
+  destruct (le_price e) as [[twa decimals]|]. 2:{ intros E; injection E as <- <- <- <- <-. repeat split; lia. }
+  destruct (decimals =? 0); [discriminate|].
+  destruct (_ <=? 0). { intros E; injection E as <- <- <- <- <-. repeat split; lia. }
+  match goal with |- context [lend_loop ?apr ?arr bal 0] => pose proof (lend_loop_spec apr arr bal 0) as Hs;
+    destruct (lend_loop apr arr bal 0) as [[c1 t1] p1] end.
+  intros E; injection E as <- <- <- <- <-. cbn [x_avail x_denom]. repeat split; lia.
+Qed.
+
+Lemma run_lends_inv now : forall xs le arr tot b xs' b' ps,
+  run_lends now xs le arr tot b = Ok (xs', b', ps) ->
+  Forall XInv xs -> BInv b -> kf4_pass now xs le arr tot = false ->
+  Forall XInv xs' /\ BInv b' /\ (forall d, owed_x d xs' - owed_x d xs <= b' d - b d).
+Proof.
+  induction xs as [|x rest IH]; intros le arr tot b xs' b' ps E HX HB Hk; cbn [run_lends] in E.
+  - injection E as <- <- <-. repeat split; [constructor|assumption|intros; lia].
+  - inversion HX as [|? ? Hx Hrest]; subst. cbn [kf4_pass] in Hk.
+    destruct (Z.eqb_spec (x_kind x) 2) as [Hd|Hd].
+    + apply orb_false_iff in Hk. destruct Hk as [Hk1 Hk2].
+      pose proof (lend_tick_indep now (hd_lenv le) arr tot (b (x_denom x)) 0 x) as Hi.
+      destruct (lend_tick now (hd_lenv le) arr tot (b (x_denom x)) x) as [[[[[[x1 bal1] paid] arr1] tot1]|]| |] eqn:Et; try discriminate.
+      2:{ injection E as <- <- <-. repeat split; [assumption|assumption|intros; lia]. }
+      destruct (lend_tick now (hd_lenv le) arr tot 0 x) as [[[[[[x2 ?] ?] a2] t2]|]| |]; try contradiction.
+      destruct Hi as (_ & <- & <-).
+      destruct (run_lends now rest (tl le) arr1 tot1 (bset b (x_denom x) bal1)) as [[[xs1 b1] ps1]| |] eqn:Er; try discriminate.
+      injection E as <- <- <-.
+      pose proof (lend_tick_step _ _ _ _ _ _ _ _ _ _ _ Et Hx (HB _) Hk1) as (T1 & T2 & T3 & T4).
+      specialize (IH _ _ _ _ _ _ _ Er Hrest (BInv_bset _ _ _ HB T2) Hk2). destruct IH as (I1 & I2 & I3).
+      split; [constructor; assumption|]. split; [assumption|]. intros d. rewrite !owed_x_cons, T4. specialize (I3 d).
+      destruct (Z.eqb_spec (x_denom x) d) as [He|Hne].
+      * subst d. rewrite bset_same in I3. lia.
+      * rewrite bset_other in I3 by congruence. lia.
+    + destruct (run_lends now rest (tl le) arr tot b) as [[[xs1 b1] ps1]| |] eqn:Er; try discriminate.
+      injection E as <- <- <-. specialize (IH _ _ _ _ _ _ _ Er Hrest HB Hk). destruct IH as (I1 & I2 & I3).
+      split; [constructor; assumption|]. split; [assumption|]. intros d. rewrite !owed_x_cons. specialize (I3 d). lia.
 Qed.
 
 (* ---------------- histories ---------------- *)
-Definition GInv (g : gauge) : Prop := 0 <= g_distributed g <= g_deposit g.
 Definition RInv (s : rstate) : Prop :=
-  Forall GInv (r_gauges s) /\ undistributed (r_gauges s) <= r_bal s /\ 0 <= r_bal s.
+  Forall GInv (r_gauges s) /\ Forall XInv (r_exts s) /\ BInv (r_bal s) /\ forall d, owed d s <= r_bal s d.
 
-Lemma undistributed_app a b : undistributed (a ++ b) = undistributed a + undistributed b.
-Proof. unfold undistributed. induction a as [|x a IH]; cbn [app map zsum]; [lia|]. rewrite IH. lia. Qed.
-
-Lemma undistributed_nonneg gs : Forall GInv gs -> 0 <= undistributed gs.
+Lemma begin_block_inv now e s s' ps :
+  begin_block now e s = Ok (s', ps) -> RInv s -> forallb recv_wf (be_recv e) = true ->
+  kf2_begin now e s = false -> kf3_begin now e s = false -> kf4_begin now e s = false -> RInv s'.
 Proof.
-  unfold undistributed. induction 1 as [|g gs Hg _ IH]; cbn [map zsum]; [lia|]. unfold GInv in Hg. lia.
+  unfold begin_block, kf2_begin, kf3_begin, kf4_begin, RInv, owed. intros E (HG & HX & HB & HO) Hw K2 K3 K4.
+  destruct (run_epochs now (r_epochs s) (r_gauges s) (be_farm e) (be_recv e) (r_bal s)) as [[[[es gs] b1] p1]| |] eqn:E1; try discriminate.
+  apply orb_false_iff in K3. destruct K3 as [K3a K3b].
+  destruct (run_exts 0 now (r_exts s) (be_ext e) b1) as [[[xs1 b2] p2]| |] eqn:E2; try discriminate.
+  destruct (run_exts 1 now xs1 (be_ext e) b2) as [[[xs2 b3] p3]| |] eqn:E3; try discriminate.
+  destruct (run_lends now xs2 (be_lend e) [] 0 b3) as [[[xs3 b4] p4]| |] eqn:E4; try discriminate.
+  injection E as <- <-. cbn [r_bal r_gauges r_exts].
+  pose proof (run_epochs_inv _ _ _ _ _ _ _ _ _ _ E1 HG HB Hw K2) as (A1 & A2 & A3).
+  pose proof (run_exts_inv _ _ _ _ _ _ _ _ E2 HX A2 K3a) as (B1 & B2 & B3).
+  pose proof (run_exts_inv _ _ _ _ _ _ _ _ E3 B1 B2 K3b) as (C1 & C2 & C3).
+  pose proof (run_lends_inv _ _ _ _ _ _ _ _ _ E4 C1 C2 K4) as (D1 & D2 & D3).
+  repeat split; try assumption. intros d. specialize (HO d). specialize (A3 d). specialize (B3 d). specialize (C3 d). specialize (D3 d). lia.
 Qed.
 
-Lemma set_gauge_undistributed l : forall i g g', nth_z l i = Some g ->
-  undistributed (set_gauge l i g') =
-  undistributed l - (g_deposit g - g_distributed g) + (g_deposit g' - g_distributed g').
+Lemma rstep_inv s o s' ps : RInv s -> op_wf o = true -> kf_step s o = false -> rstep s o = Ok (s', ps) -> RInv s'.
 Proof.
-  unfold undistributed. induction l as [|x l IH]; intros i g g' H; [destruct i; discriminate|].
-  destruct i as [|j]; cbn [nth_z] in H; cbn [set_gauge map zsum].
-  - injection H as ->. lia.
-  - rewrite (IH j g g' H). lia.
-Qed.
-
-Lemma set_gauge_forall (P : gauge -> Prop) l : forall i g', Forall P l -> P g' -> Forall P (set_gauge l i g').
-Proof.
-  induction l as [|x l IH]; intros i g' Hl Hg; [destruct i; constructor|].
-  inversion Hl; subst. destruct i; cbn [set_gauge]; constructor; auto.
-Qed.
-
-Lemma nth_z_forall {A} (P : A -> Prop) l : forall i x, Forall P l -> nth_z l i = Some x -> P x.
-Proof.
-  induction l as [|y l IH]; intros i x Hl H; [destruct i; discriminate|].
-  inversion Hl; subst. destruct i; cbn [nth_z] in H; [injection H as <-; assumption|eauto].
-Qed.
-
-Lemma rstep_inv s o s' : RInv s -> rstep s o = Ok s' -> RInv s'.
-Proof.
-  intros (HG & HU & HB). destruct o as [dep total start now funds|i now calc|a]; cbn [rstep].
-  - destruct (_ || _) eqn:E; [discriminate|]. intros H. injection H as <-. unfold RInv. cbn [r_bal r_gauges].
-    assert (0 < dep) by lia. split; [|split].
+  intros HI Hw Hk. pose proof HI as (HG & HX & HB & HO).
+  destruct o as [d dep total start now dur funds meta|d now dur|kind d total days minlock now funds ok|now e|d a]; cbn [rstep].
+  - destruct (_ || _) eqn:E; [discriminate|]. intros H. injection H as <- <-.
+    repeat (apply orb_false_iff in E; destruct E as [E ?]).
+    assert (0 < dep) by lia. unfold RInv, owed. cbn [r_bal r_gauges r_exts]. repeat split.
     + apply Forall_app. split; [assumption|]. constructor; [|constructor]. unfold GInv; cbn; lia.
-    + rewrite undistributed_app. unfold undistributed at 2. cbn [map zsum g_deposit g_distributed]. lia.
-    + lia.
-  - destruct (nth_z (r_gauges s) i) as [g|] eqn:En; [|intros H; injection H as <-; repeat split; assumption].
-    destruct (trigger now calc (r_bal s) g) as [[[g' b'] paid]| |] eqn:Et; try discriminate.
-    intros H. injection H as <-. unfold RInv. cbn [r_bal r_gauges].
-    pose proof (trigger_spec _ _ _ _ _ _ _ HB Et) as (D1 & D2 & D3 & D4 & D5 & D6 & D7). cbv zeta in *.
-    pose proof (nth_z_forall GInv _ _ _ HG En) as Hg. unfold GInv in Hg.
-    split; [|split].
-    + apply set_gauge_forall; [assumption|]. unfold GInv. destruct D7 as [(?&?&?)|(?&?&?&?)]; lia.
-    + rewrite (set_gauge_undistributed _ _ g g' En). lia.
-    + lia.
-  - destruct (Z.ltb_spec a 0); [discriminate|]. intros HH. injection HH as <-. unfold RInv. cbn [r_bal r_gauges]. repeat split; try assumption; lia.
+    + assumption.
+    + intros x. unfold bset. specialize (HB x). destruct (Z.eqb_spec x d); [subst x|]; lia.
+    + intros x. rewrite owed_g_app, owed_g_cons. replace (owed_g x []) with 0 by reflexivity. cbn [g_denom g_rem g_swap g_deposit g_distributed].
+      specialize (HO x). unfold owed in HO. unfold bset. rewrite (Z.eqb_sym d x). destruct (Z.eqb_spec x d); [subst x|]; lia.
+  - intros H. injection H as <- <-. unfold RInv, owed. cbn [r_bal r_gauges r_exts]. repeat split; try assumption.
+    + apply Forall_app. split; [assumption|]. constructor; [|constructor]. unfold GInv; cbn; lia.
+    + intros x. rewrite owed_g_app, owed_g_cons. replace (owed_g x []) with 0 by reflexivity. cbn [g_denom g_rem g_swap g_deposit].
+      specialize (HO x). unfold owed in HO. destruct (d =? x); lia.
+  - destruct (_ || _) eqn:E; [discriminate|]. intros H. injection H as <- <-.
+    repeat (apply orb_false_iff in E; destruct E as [E ?]).
+    assert (0 < total) by lia. unfold RInv, owed. cbn [r_bal r_gauges r_exts]. repeat split.
+    + assumption.
+    + apply Forall_app. split; [assumption|]. constructor; [|constructor]. unfold XInv; cbn; lia.
+    + intros x. unfold bset. specialize (HB x). destruct (Z.eqb_spec x d); [subst x|]; lia.
+    + intros x. rewrite owed_x_app, owed_x_cons. replace (owed_x x []) with 0 by reflexivity. cbn [x_denom x_avail].
+      specialize (HO x). unfold owed in HO. unfold bset. rewrite (Z.eqb_sym d x). destruct (Z.eqb_spec x d); [subst x|]; lia.
+  - intros H. cbn [kf_step] in Hk. apply orb_false_iff in Hk. destruct Hk as [Hk K4]. apply orb_false_iff in Hk. destruct Hk as [K2 K3].
+    cbn [op_wf] in Hw. eapply begin_block_inv; eassumption.
+  - destruct (Z.ltb_spec a 0); [discriminate|]. intros H'. injection H' as <- <-.
+    unfold RInv, owed. cbn [r_bal r_gauges r_exts]. repeat split; try assumption.
+    + intros x. unfold bset. specialize (HB x). destruct (Z.eqb_spec x d); [subst x|]; lia.
+    + intros x. specialize (HO x). unfold owed in HO. unfold bset. destruct (Z.eqb_spec x d); [subst x|]; lia.
 Qed.
 
-Lemma rapply_inv s o : RInv s -> RInv (rapply s o).
-Proof. intros H. unfold rapply. destruct (rstep s o) eqn:E; [eapply rstep_inv; eassumption|assumption|assumption]. Qed.
+Lemma rapply_inv s o : RInv s -> op_wf o = true -> kf_step s o = false -> RInv (rapply s o).
+Proof.
+  intros H Hw Hk. unfold rapply. destruct (rstep s o) as [[s' ps]| |] eqn:E; [eapply rstep_inv; eassumption|assumption|assumption].
+Qed.
 
-Lemma rrun_inv ops : forall s, RInv s -> RInv (rrun s ops).
-Proof. induction ops as [|o ops IH]; intros s H; cbn; [assumption|]. apply IH. apply rapply_inv. assumption. Qed.
+Lemma rrun_inv ops : forall s, RInv s -> forallb op_wf ops = true -> run_clean s ops = true -> RInv (rrun s ops).
+Proof.
+  induction ops as [|o ops IH]; intros s H Hw Hc; cbn; [assumption|].
+  cbn [forallb] in Hw. apply andb_true_iff in Hw. destruct Hw as [Hw1 Hw2].
+  cbn [run_clean] in Hc. apply andb_true_iff in Hc. destruct Hc as [Hc1 Hc2]. apply negb_true_iff in Hc1.
+  apply IH; [apply rapply_inv; assumption|assumption|assumption].
+Qed.
 
-Lemma rinv_init : RInv (mkR 0 []).
-Proof. repeat split; cbn; try lia. constructor. Qed.
+Lemma rinv_init : RInv rinit.
+Proof.
+  unfold RInv, rinit. cbn [r_gauges r_exts r_bal]. split; [constructor|]. split; [constructor|].
+  split; [intros d; lia|]. intros d. unfold owed. cbn. lia.
+Qed.
+
+Lemma owed_active_le d gs xs : Forall GInv gs -> Forall XInv xs -> owed_active d gs xs <= owed_g d gs + owed_x d xs.
+Proof.
+  intros HG HX. unfold owed_active, owed_g, owed_x.
+  assert (A : zsum (map (fun g => if (g_denom g =? d) && g_active g then g_rem g else 0) gs) <=
+              zsum (map (fun g => if g_denom g =? d then g_rem g else 0) gs)).
+  { induction HG as [|g gs Hg _ IH]; cbn [map zsum]; [lia|]. apply g_rem_nonneg in Hg.
+    destruct (g_denom g =? d), (g_active g); cbn [andb]; lia. }
+  assert (B : zsum (map (fun x => if (x_denom x =? d) && x_active x then x_avail x else 0) xs) <=
+              zsum (map (fun x => if x_denom x =? d then x_avail x else 0) xs)).
+  { induction HX as [|x xs Hx _ IH]; cbn [map zsum]; [lia|]. unfold XInv in Hx.
+    destruct (x_denom x =? d), (x_active x); cbn [andb]; lia. }
+  lia.
+Qed.
+
+(* custody, every clean history: the predicate the harness evaluates holds on the model *)
+Lemma custody_clean ops d : forallb op_wf ops = true -> run_clean rinit ops = true ->
+  let s := rrun rinit ops in
+  owed d s <= r_bal s d /\ holds_C19_custody d (r_bal s d) (r_gauges s) (r_exts s) = true.
+Proof.
+  intros Hw Hc. pose proof (rrun_inv ops _ rinv_init Hw Hc) as (HG & HX & HB & HO). cbv zeta.
+  split; [apply HO|]. unfold holds_C19_custody. apply andb_true_iff. split.
+  - apply forallb_forall. intros x Hin. rewrite Forall_forall in HX. specialize (HX x Hin). unfold XInv in HX.
+    apply orb_true_iff. right. apply Z.leb_le. assumption.
+  - apply Z.leb_le. specialize (HO d). unfold owed in HO. pose proof (owed_active_le d _ _ HG HX). lia.
+Qed.
+
+(* cumulative distributed <= deposit for every non-swap-fee gauge, EVERY history (no class excluded) *)
+Lemma begin_block_ginvr now e s s' ps : begin_block now e s = Ok (s', ps) -> Forall GInvR (r_gauges s) -> Forall GInvR (r_gauges s').
+Proof.
+  unfold begin_block. intros E HG.
+  destruct (run_epochs now (r_epochs s) (r_gauges s) (be_farm e) (be_recv e) (r_bal s)) as [[[[es gs] b1] p1]| |] eqn:E1; try discriminate.
+  destruct (run_exts 0 now (r_exts s) (be_ext e) b1) as [[[xs1 b2] p2]| |]; try discriminate.
+  destruct (run_exts 1 now xs1 (be_ext e) b2) as [[[xs2 b3] p3]| |]; try discriminate.
+  destruct (run_lends now xs2 (be_lend e) [] 0 b3) as [[[xs3 b4] p4]| |]; try discriminate.
+  injection E as <- <-. cbn [r_gauges]. eapply run_epochs_ginvr; eassumption.
+Qed.
+
+Lemma rapply_ginvr s o : Forall GInvR (r_gauges s) -> Forall GInvR (r_gauges (rapply s o)).
+Proof.
+  intros HG. unfold rapply. destruct (rstep s o) as [[s' ps]| |] eqn:E; try assumption.
+  destruct o as [d dep total start now dur funds meta|d now dur|kind d total days minlock now funds ok|now e|d a]; cbn [rstep] in E.
+  - destruct (_ || _) eqn:Ec; [discriminate|]. injection E as <- <-. cbn [r_gauges].
+    repeat (apply orb_false_iff in Ec; destruct Ec as [Ec ?]).
+    apply Forall_app. split; [assumption|]. constructor; [|constructor]. unfold GInvR; cbn; lia.
+  - injection E as <- <-. cbn [r_gauges]. apply Forall_app. split; [assumption|]. constructor; [|constructor]. unfold GInvR; cbn; discriminate.
+  - destruct (_ || _); [discriminate|]. injection E as <- <-. assumption.
+  - eapply begin_block_ginvr; eassumption.
+  - destruct (a <? 0); [discriminate|]. injection E as <- <-. assumption.
+Qed.
+
+Lemma rrun_ginvr ops : forall s, Forall GInvR (r_gauges s) -> Forall GInvR (r_gauges (rrun s ops)).
+Proof. induction ops as [|o ops IH]; intros s H; cbn; [assumption|]. apply IH. apply rapply_ginvr. assumption. Qed.
+
+(* ---------------- the life of one gauge ---------------- *)
+Lemma firstn_snoc {A} (l : list A) : forall n a, nth_z l n = Some a -> firstn (S n) l = firstn n l ++ [a].
+Proof.
+  induction l as [|x l IH]; intros n a H; [destruct n; discriminate|].
+  destruct n as [|n]; cbn [nth_z] in H.
+  - injection H as <-. reflexivity.
+  - cbn [firstn app]. f_equal. apply IH. exact H.
+Qed.
+
+Lemma zsum_app a b : zsum (a ++ b) = zsum a + zsum b.
+Proof. induction a as [|x a IH]; cbn [app zsum]; lia. Qed.
+
+Lemma alloc_sum_step sp k a : 0 <= k -> nth_z sp (Z.to_nat k) = Some a -> alloc_sum sp (k + 1) = alloc_sum sp k + a.
+Proof.
+  intros Hk H. unfold alloc_sum. replace (Z.to_nat (k + 1)) with (S (Z.to_nat k)) by lia.
+  rewrite (firstn_snoc _ _ _ H), zsum_app. cbn [zsum]. lia.
+Qed.
+
+Lemma alloc_sum_le sp k : Forall (fun x => 0 <= x) sp -> alloc_sum sp k <= zsum sp.
+Proof.
+  unfold alloc_sum. generalize (Z.to_nat k) as n. intros n H. revert n.
+  induction H as [|x l Hx Hl IH]; intros n; [destruct n; cbn; lia|].
+  destruct n; cbn [firstn zsum]; [|specialize (IH n); lia].
+  assert (0 <= zsum l) by (clear IH; induction Hl; cbn [zsum]; lia). lia.
+Qed.
+
+Lemma nth_z_lt {A} (l : list A) : forall n, (n < length l)%nat -> exists a, nth_z l n = Some a.
+Proof.
+  induction l as [|x l IH]; intros n H; cbn [length] in H; [lia|].
+  destruct n; cbn [nth_z]; [eauto|]. apply IH. lia.
+Qed.
+
+Definition LInv (dep n bal0 : Z) (sp : list Z) (st : gauge * Z * Z) : Prop :=
+  let '(g, bal, acc) := st in
+  g_deposit g = dep /\ g_total g = n /\ 0 <= g_triggered g <= n /\
+  0 <= acc <= g_distributed g /\ g_distributed g <= alloc_sum sp (g_triggered g) /\ bal = bal0 - acc /\ 0 <= bal.
+
+Lemma life_step_inv dep n bal0 sp st ev : split dep n = Ok sp -> zlen sp = n ->
+  LInv dep n bal0 sp st -> LInv dep n bal0 sp (life_step st ev).
+Proof.
+  intros Hs Hl. destruct st as [[g bal] acc]. unfold LInv, life_step. intros (A & B & C & D & F & G & H).
+  destruct (trigger (fst ev) (snd ev) bal g) as [[[g' bal'] paid]| |] eqn:Et; [|repeat split; lia|repeat split; lia].
+  apply trigger_spec in Et. destruct Et as (D1 & D2 & D3 & D4 & D5 & D6 & D7). cbv zeta in D7.
+  destruct D7 as (P1 & P2 & P3 & P4).
+  destruct P4 as [(Q1 & Q2 & Q3)|(Q1 & Q2 & Q3 & Q4 & Q5 & Q6)].
+  - rewrite Q1. repeat split; lia.
+  - assert (Hlt : (Z.to_nat (g_triggered g) < length sp)%nat) by (unfold zlen in Hl; lia).
+    destruct (nth_z_lt sp _ Hlt) as [a Ha].
+    assert (Ea : epoch_allocation g = a) by (unfold epoch_allocation; rewrite A, B, Hs, Ha; reflexivity).
+    rewrite Q1, (alloc_sum_step sp (g_triggered g) a (proj1 C) Ha). repeat split; lia.
+Qed.
+
+Lemma gauge_life dep n start dur denom sp evs bal0 :
+  1 <= n -> n <= dep -> split dep n = Ok sp -> 0 <= bal0 ->
+  let '(g, bal, acc) := fold_left life_step evs (fresh_gauge dep n start dur denom, bal0, 0) in
+  0 <= acc <= g_distributed g /\ g_distributed g <= alloc_sum sp (g_triggered g) /\
+  alloc_sum sp (g_triggered g) <= dep /\ 0 <= g_triggered g <= n /\ bal = bal0 - acc /\ g_deposit g = dep.
+Proof.
+  intros Hn Hd Hs Hb.
+  destruct (split_spec dep n Hn Hd) as (sp' & Hs' & Hsum & Hlen & Hel). rewrite Hs in Hs'. injection Hs' as <-.
+  assert (Hnn : Forall (fun x => 0 <= x) sp).
+  { eapply Forall_impl; [|exact Hel]. cbn. intros x Hx. assert (0 <= dep / n) by (apply Z.div_pos; lia). lia. }
+  assert (HI : LInv dep n bal0 sp (fresh_gauge dep n start dur denom, bal0, 0)).
+  { unfold LInv, fresh_gauge, alloc_sum. cbn. repeat split; lia. }
+  revert HI. generalize (fresh_gauge dep n start dur denom, bal0, 0) as st.
+  induction evs as [|ev evs IH]; intros st HI; cbn [fold_left].
+  - destruct st as [[g bal] acc]. destruct HI as (A & B & C & D & F & G & H).
+    pose proof (alloc_sum_le sp (g_triggered g) Hnn). repeat split; lia.
+  - apply IH. apply life_step_inv; assumption.
+Qed.
+
+(* an exhausted gauge pays nothing more *)
+Lemma trigger_exhausted now calc bal g g' bal' paid : g_triggered g = g_total g ->
+  trigger now calc bal g = Ok (g', bal', paid) -> paid = [] /\ bal' = bal /\ g_distributed g' = g_distributed g /\ g_triggered g' = g_triggered g.
+Proof.
+  intros He Et. apply trigger_spec in Et. destruct Et as (D1 & D2 & D3 & D4 & D5 & D6 & D7). cbv zeta in D7.
+  destruct D7 as (P1 & P2 & P3 & P4). destruct P4 as [(Q1 & Q2 & Q3)|(Q1 & Q2 & Q3 & Q4 & Q5 & Q6)]; [|contradiction].
+  subst paid. cbn in P2. repeat split; try lia.
+Qed.
 
 (* ---------------- epochs ---------------- *)
 (* a tick never moves the epoch start beyond now, and a trigger advances exactly one epoch *)
@@ -287,4 +794,224 @@ Proof.
   assert (C3 : (p * total * 1000000000000) * (P18 * P18 * F_P53) <= (coins * s * 1000000000001) * (P18 * P18 * F_P53)) by nia.
   assert (0 < P18 * P18 * F_P53) by nia.
   apply (Z.mul_le_mono_pos_r _ _ (P18 * P18 * F_P53)); assumption.
+Qed.
+
+(* every entry of the farming calculation is the share formula applied to an eligible value *)
+Lemma collect_in l : forall ps, collect l = Ok ps -> forall p, In p ps -> In (Ok p) l.
+Proof.
+  induction l as [|o l IH]; intros ps E p Hp; cbn [collect] in E.
+  - injection E as <-. contradiction.
+  - destruct o as [q| |]; try discriminate. destruct (collect l) as [qs| |]; try discriminate.
+    injection E as <-. destruct Hp as [->|Hp]; [left; reflexivity|right; eapply IH; eauto].
+Qed.
+
+Lemma farm_calc_share e coins ps : farm_calc e coins = Ok ps -> forall a r, In (a, r) ps ->
+  exists s, In (a, s) (eligible e) /\ r = share_reward coins (zsum (map snd (eligible e))) s /\ r < two63.
+Proof.
+  intros E a r Hin.
+  assert (G : forall fs : list (Z * Z), let total := zsum (map snd fs) in
+            forall fs', (forall f, In f fs' -> In f fs) ->
+            collect (map (fun f => coin_of_float (fst f) (share_reward coins total (snd f))) fs') = Ok ps ->
+            exists s, In (a, s) fs /\ r = share_reward coins total s /\ r < two63).
+  { intros fs total fs' Hsub Ec. pose proof (collect_in _ _ Ec _ Hin) as Hi. apply in_map_iff in Hi.
+    destruct Hi as ([a' s] & Hc & Hf). cbn [fst snd] in Hc. unfold coin_of_float in Hc.
+    destruct (Z.leb_spec two63 (share_reward coins total s)); [discriminate|]. injection Hc as -> <-.
+    exists s. split; [apply Hsub; assumption|]. split; [reflexivity|assumption]. }
+  destruct e as [|fs|fs child]; cbn [farm_calc eligible] in *; [discriminate| |].
+  - destruct (zsum (map snd fs) =? 0); [injection E as <-; contradiction|]. eapply G; [|exact E]. auto.
+  - set (ms := combine (map fst fs) (min_supplies (map snd fs) child)) in *.
+    destruct (zsum (map snd ms) =? 0); [injection E as <-; contradiction|]. eapply G; [|exact E].
+    intros f Hf. apply filter_In in Hf. tauto.
+Qed.
+
+Lemma farm_share_bound e coins ps a r : farm_calc e coins = Ok ps -> In (a, r) ps -> 0 <= coins ->
+  Forall (fun f => 0 <= snd f) (eligible e) ->
+  let total := zsum (map snd (eligible e)) in
+  exists s, In (a, s) (eligible e) /\
+    (P18 <= s -> kf_C19_1 coins total = false -> holds_C19_share coins total s r = true).
+Proof.
+  intros E Hin Hc Hnn total. destruct (farm_calc_share _ _ _ E _ _ Hin) as (s & Hs & -> & _).
+  exists s. split; [assumption|]. intros Hs1 Hk. fold total.
+  assert (Ht : 0 <= total).
+  { unfold total. clear -Hnn. induction Hnn as [|f l Hf _ IH]; cbn [map zsum]; lia. }
+  assert (Hpos : 0 < total).
+  { assert (s <= total); [|dec_consts; lia]. unfold total. clear -Hnn Hs.
+    induction Hnn as [|f l Hf Hl IH]; [contradiction|]. cbn [map zsum].
+    assert (0 <= zsum (map snd l)) by (clear -Hl; induction Hl; cbn [map zsum]; lia).
+    destruct Hs as [->|Hs]; [cbn [snd]; lia|]. specialize (IH Hs). lia. }
+  apply share_bound; assumption.
+Qed.
+
+Lemma epoch_cap : forall now calc bal g g' bal' paid,
+  trigger now calc bal g = Ok (g', bal', paid) ->
+  0 <= pay_total paid <= g_distributed g' - g_distributed g /\
+  g_distributed g' - g_distributed g <= (if g_triggered g' =? g_triggered g then 0 else epoch_allocation g) /\
+  (g_triggered g' <> g_triggered g ->
+     g_triggered g' = g_triggered g + 1 /\ epoch_allocation g <= g_deposit g - g_distributed g /\
+     g_triggered g <> g_total g /\ g_active g = true /\ g_start g <= now) /\
+  bal' = bal - pay_total paid /\ (0 <= bal -> 0 <= bal') /\ g_deposit g' = g_deposit g /\ g_total g' = g_total g.
+Proof.
+  intros now calc bal g g' bal' paid E.
+  pose proof (trigger_spec _ _ _ _ _ _ _ E) as (D1 & D2 & D3 & D4 & D5 & D6 & D7). cbv zeta in *.
+  destruct D7 as (P1 & P2 & P3 & [(A & B & C)|(A & B & C & D & F)]).
+  - rewrite A, Z.eqb_refl. repeat split; try lia.
+  - destruct (Z.eqb_spec (g_triggered g') (g_triggered g)); [lia|]. repeat split; try lia; tauto.
+Qed.
+
+Lemma epoch_cap_swapfee : forall calc recv bal g g' bal' paid,
+  g_swap g = true -> 0 <= g_deposit g -> trigger_swap calc recv bal g = Ok (g', bal', paid) ->
+  kf_C19_2 calc recv g = false ->
+  0 <= pay_total paid <= g_distributed g' - g_distributed g /\
+  g_distributed g' - g_distributed g <= g_deposit g /\
+  ((g' = g /\ bal' = bal) \/
+   exists r, recv = Ok r /\ g_triggered g' = g_triggered g + 1 /\
+             g_deposit g' = g_deposit g - (g_distributed g' - g_distributed g) + r /\ bal' = bal - pay_total paid + r).
+Proof.
+  intros calc recv bal g g' bal' paid Hs Hd E Hk.
+  apply trigger_swap_spec in E. destruct E as [(E1 & B & C & B' & D)|(tot & r & E1 & E2 & C & D & F & G & G')].
+  - subst g'. destruct D as [D|[D|D]]; [|congruence|congruence]. split; [lia|]. split; [lia|]. left. split; [reflexivity|lia].
+  - subst g' recv. cbn [g_swap_paid g_distributed g_deposit g_triggered]. split; [lia|]. split; [lia|]. right. exists r.
+    repeat split; lia.
+Qed.
+
+Lemma cumulative_all : forall ops g, In g (r_gauges (rrun rinit ops)) -> g_swap g = false ->
+  0 <= g_distributed g <= g_deposit g.
+Proof.
+  intros ops g Hin Hs. pose proof (rrun_ginvr ops rinit ltac:(constructor)) as HG.
+  rewrite Forall_forall in HG. exact (HG g Hin Hs).
+Qed.
+
+Lemma custody_swapfee_refuted : exists ops d, forallb op_wf ops = true /\ run_clean rinit ops = false /\
+  let s := rrun rinit ops in
+  r_bal s d < owed d s /\ holds_C19_custody d (r_bal s d) (r_gauges s) (r_exts s) = false.
+Proof.
+  exists [CreateSwap 1 0 86400; Create 1 1000 5 400000 0 129600 1000 true;
+          Begin 10 (mkBenv [] [] []); Begin 50000 (mkBenv [FarmErr; FarmErr] [Ok 500; Err 1] []);
+          Begin 140000 (mkBenv [FarmPlain [(7, 1000000000000000000)]; FarmErr] [Err 1; Err 1] []);
+          Begin 230000 (mkBenv [FarmPlain [(7, 1000000000000000000)]; FarmErr] [Err 1; Err 1] [])], 1.
+  vm_compute. repeat split.
+Qed.
+
+Lemma custody_program_refuted : exists ops d, forallb op_wf ops = true /\ run_clean rinit ops = false /\
+  let s := rrun rinit ops in
+  r_bal s d < owed_g d (r_gauges s) /\ holds_C19_custody d (r_bal s d) (r_gauges s) (r_exts s) = false.
+Proof.
+  exists [ExtCreate 0 5 5000000000000000000 1 1 0 5000000000000000000 true; Create 5 1000 3 500000 0 86400 1000 true;
+          Begin 10 (mkBenv [FarmErr] [] [mkXenv 6000000 [(11,1000000,0);(12,1000000,0);(13,1000000,0);(14,1000000,0);(15,1000000,0);(16,1000000,0)]]);
+          Begin 86401 (mkBenv [FarmErr] [] [mkXenv 6000000 [(11,1000000,0);(12,1000000,0);(13,1000000,0);(14,1000000,0);(15,1000000,0);(16,1000000,0)]])], 5.
+  vm_compute. repeat split.
+Qed.
+
+(* ---------------- when a program cannot overdraw ---------------- *)
+(* one owner: f * 10^36 * total <= er * (10^18 * net + total) + 10^18/2 * total *)
+Lemma ext_final_bound kind avail dleft total net f : ext_final kind avail dleft total net = Ok f ->
+  0 <= net -> 0 < total -> 0 <= avail -> 0 < dleft ->
+  let er := dquo (dec_of_int avail) (dec_of_int dleft) in
+  0 <= er /\ er * dleft <= avail * P18 + dleft /\
+  f * P36 * total <= er * (P18 * net + total) + HALF18 * total.
+Proof.
+  unfold ext_final. intros E Hn Ht Ha Hd.
+  destruct (int64_c net) as [n|] eqn:E1; [|discriminate].
+  destruct (if kind =? 0 then int64_c total else Some total) as [t|] eqn:E2; [|discriminate].
+  destruct (int64_c avail) as [a|] eqn:E3; [|discriminate].
+  assert (n = net) by (unfold int64_c in E1; destruct (_ && _); congruence).
+  assert (t = total) by (destruct (kind =? 0); [unfold int64_c in E2; destruct (_ && _); congruence|congruence]).
+  assert (a = avail) by (unfold int64_c in E3; destruct (_ && _); congruence). subst n t a.
+  destruct (Z.eqb_spec total 0); [discriminate|]. injection E as <-. cbv zeta.
+  pose proof (dquo_ints_bounds net total Hn Ht) as [S0 S1]. cbv zeta in S0, S1.
+  pose proof (dquo_ints_bounds avail dleft Ha Hd) as [R0 R1]. cbv zeta in R0, R1.
+  set (share := dquo (dec_of_int net) (dec_of_int total)) in *.
+  set (er := dquo (dec_of_int avail) (dec_of_int dleft)) in *.
+  pose proof (dmul_bounds share er) as Bm. pose proof (dmul_nonneg share er S0 R0) as Nm.
+  pose proof (dtrunc_int_bounds (dmul share er) Nm) as [T0 T1].
+  set (f := dtrunc_int (dmul share er)) in *. dec_consts. pose proof P36_eq as E36.
+  split; [assumption|]. split; [lia|].
+  assert (F1 : f * P36 <= share * er + HALF18) by (rewrite E36; nia).
+  assert (F2 : share * total * er <= (net * P18 + total) * er) by (apply Z.mul_le_mono_nonneg_r; lia).
+  nia.
+Qed.
+
+Lemma ext_loop_bound x now total : forall pop bal tr b t ps,
+  ext_loop x now total pop bal tr = Ok (b, t, ps) ->
+  Forall (fun u => 0 <= snd (fst u)) pop -> 0 < total -> 0 <= x_avail x -> 0 < x_days x - x_count x ->
+  let er := dquo (dec_of_int (x_avail x)) (dec_of_int (x_days x - x_count x)) in
+  tr <= t /\ (t - tr) * P36 * total <= er * (P18 * pop_net pop + zlen pop * total) + zlen pop * HALF18 * total.
+Proof.
+  intros pop. induction pop as [|[[a net] created] rest IH]; intros bal tr b t ps E Hnn Ht Ha Hd; cbn [ext_loop] in E.
+  - injection E as <- <- <-. cbn. unfold pop_net, zlen. cbn. lia.
+  - inversion Hnn as [|? ? Hn Hrest]; subst. cbn [fst snd] in Hn. cbv zeta.
+    set (er := dquo (dec_of_int (x_avail x)) (dec_of_int (x_days x - x_count x))).
+    assert (Hl : zlen ((a, net, created) :: rest) = zlen rest + 1) by (unfold zlen; cbn [length]; lia).
+    assert (Hp : pop_net ((a, net, created) :: rest) = net + pop_net rest) by reflexivity.
+    assert (Hl0 : 0 <= zlen rest) by (unfold zlen; lia).
+    assert (R0 : 0 <= er).
+    { unfold er. apply dquo_nonneg; unfold dec_of_int; dec_consts; nia. }
+    dec_consts.
+    assert (Skip : forall tr', ext_loop x now total rest bal tr' = Ok (b, t, ps) -> tr' = tr ->
+              tr <= t /\ (t - tr) * P36 * total <= er * (P18 * pop_net ((a, net, created) :: rest) + zlen ((a, net, created) :: rest) * total)
+                                            + zlen ((a, net, created) :: rest) * HALF18 * total).
+    { intros tr' E' ->. destruct (IH _ _ _ _ _ E' Hrest Ht Ha Hd) as [I1 I2]. fold er in I2. split; [assumption|].
+      rewrite Hl, Hp. nia. }
+    destruct (negb (x_count x =? x_days x - 1) && (now - created <? x_minlock x)); [apply (Skip tr E eq_refl)|].
+    destruct (ext_final (x_kind x) (x_avail x) (x_days x - x_count x) total net) as [f| |] eqn:Ef; try discriminate.
+    destruct (Z.ltb_spec 0 f); [|apply (Skip tr E eq_refl)].
+    pose proof (ext_final_bound _ _ _ _ _ _ Ef Hn Ht Ha Hd) as (_ & _ & F). fold er in F.
+    set (p := if f <=? bal then (bal - f, f) else (bal, 0)) in E. destruct p as [bal1 got].
+    destruct (ext_loop x now total rest bal1 (tr + f)) as [[[b1 t1] ps1]| |] eqn:Er; try discriminate.
+    injection E as <- <- <-. destruct (IH _ _ _ _ _ Er Hrest Ht Ha Hd) as [I1 I2]. fold er in I2.
+    split; [lia|]. rewrite Hl, Hp. nia.
+Qed.
+
+Lemma P18_ge_1000 : 1000 <= P18. Proof. vm_compute. discriminate. Qed.
+
+Lemma ext_safe_no_overdraw now e x : ext_safe e x = true -> kf_C19_3 now e x = false.
+Proof.
+  unfold ext_safe. intros H. repeat (apply andb_true_iff in H; destruct H as [H ?]).
+  apply Z.leb_le in H. rename H into Ha.
+  assert (Hnn : Forall (fun u => 0 <= snd (fst u)) (xe_pop e)).
+  { apply Forall_forall. intros u Hu. rewrite forallb_forall in H4. specialize (H4 u Hu). lia. }
+  unfold kf_C19_3, ext_tick.
+  destruct (negb (x_active x)); [lia|]. destruct (negb (x_next x <? now)); [lia|].
+  destruct (Z.ltb_spec (x_count x) (x_days x)); [|cbn; lia].
+  destruct (ext_loop x now (xe_total e) (xe_pop e) 0 0) as [[[b t] ps]| |] eqn:El; try reflexivity.
+  cbn [x_avail]. apply Z.ltb_ge.
+  pose proof (ext_loop_bound _ _ _ _ _ _ _ _ _ El Hnn ltac:(lia) Ha ltac:(lia)) as [B0 B1]. cbv zeta in B1.
+  set (D := x_days x - x_count x) in *. set (A := x_avail x) in *. set (k := zlen (xe_pop e)) in *.
+  set (T := xe_total e) in *. set (S := pop_net (xe_pop e)) in *.
+  assert (HD : 1 <= D) by (unfold D; lia).
+  pose proof (dquo_ints_bounds A D Ha ltac:(lia)) as [R0 R1]. cbv zeta in R0, R1.
+  set (er := dquo (dec_of_int A) (dec_of_int D)) in *.
+  assert (Hk : 0 <= k) by (unfold k, zlen; lia).
+  assert (HT : 0 < T) by lia. assert (HS : S <= T) by lia.
+  assert (K0 : 4 * k * A <= P18) by lia. assert (K0' : 4 * k <= P18) by lia.
+  clearbody D A k T S er. clear - B0 B1 HD R0 R1 Hk HT HS K0 K0' Ha.
+  dec_consts. pose proof P36_eq as E36. pose proof P18_ge_1000 as Hp. rewrite E36 in *.
+  set (p := P18) in *. set (h := HALF18) in *. clearbody p h.
+  assert (M1 : er * S <= er * T) by (apply Z.mul_le_mono_nonneg_l; lia).
+  assert (M2 : er * p * S <= er * p * T) by (replace (er * p * S) with (p * (er * S)) by ring; replace (er * p * T) with (p * (er * T)) by ring; apply Z.mul_le_mono_nonneg_l; lia).
+  assert (C1 : t * (p * p) * T <= (er * (p + k) + k * h) * T) by lia.
+  assert (C2 : t * (p * p) <= er * (p + k) + k * h) by (apply (Z.mul_le_mono_pos_r _ _ T); assumption).
+  assert (M3 : er * D * (p + k) <= (A * p + D) * (p + k)) by (apply Z.mul_le_mono_nonneg_r; lia).
+  assert (M4 : t * (p * p) * D <= (er * (p + k) + k * h) * D) by (apply Z.mul_le_mono_nonneg_r; lia).
+  assert (C3 : t * (p * p) * D <= (A * p + D) * (p + k) + k * h * D) by lia.
+  destruct (Z.le_gt_cases t A) as [|Hgt]; [lia|exfalso].
+  assert (C4 : (A + 1) * (p * p * D) <= t * (p * p * D)) by (apply Z.mul_le_mono_nonneg_r; nia).
+  assert (F1 : 4 * k * A * p <= p * p) by (apply Z.mul_le_mono_nonneg_r; lia).
+  assert (F2 : 4 * k * p * D <= p * p * D) by (apply Z.mul_le_mono_nonneg_r; [lia|]; apply Z.mul_le_mono_nonneg_r; lia).
+  assert (F3 : 4 * k * D <= p * D) by (apply Z.mul_le_mono_nonneg_r; lia).
+  assert (F4 : A * (p * p) * 1 <= A * (p * p) * D) by (apply Z.mul_le_mono_nonneg_l; nia).
+  assert (F5 : 1000 * (D * p) <= p * (D * p)) by (apply Z.mul_le_mono_nonneg_r; nia).
+  assert (F6 : p * p * 1 <= p * p * D) by (apply Z.mul_le_mono_nonneg_l; nia).
+  assert (F7 : k * h * D * 2 = k * p * D) by (subst p; ring_simplify; lia).
+  lia.
+Qed.
+
+(* class C19-F4 witness: 1 000 000 of a reward token priced 2.0, one day, one borrower: 2 000 000 are paid *)
+Lemma custody_lend_refuted : exists ops d, forallb op_wf ops = true /\ run_clean rinit ops = false /\
+  let s := rrun rinit ops in
+  r_bal s d < owed_g d (r_gauges s) /\ holds_C19_custody d (r_bal s d) (r_gauges s) (r_exts s) = false.
+Proof.
+  exists [ExtCreate 2 1 1000000 1 1 0 1000000 true; Create 1 5000000 3 500000 0 86400 5000000 true;
+          Begin 90000 (mkBenv4 [FarmErr] [] [] [mkLenv true [(1, 50000000000000000000)] (Some (2000000, 1000000))])], 1.
+  vm_compute. repeat split.
 Qed.
